@@ -1,6 +1,6 @@
 (** C01 — vocabulary of the generated facts (Gen/C01Facts.v): every `for … range <map>` site of the
     non-test code of x/, app/, eth/, every use of set.Set.ToSlice, every time.Now / math/rand /
-    `go func` site.  The generator (harness/gen/c01) prints terms of these types, never verdicts. *)
+    `go func` site, every concurrency / timing construct (channels, select, timers, deadlines, sync, runtime).  The generator (harness/gen/c01) prints terms of these types, never verdicts. *)
 From Coq Require Import List Bool Arith String.
 Import ListNotations.
 
@@ -59,6 +59,33 @@ Record pstate := mk_ps {
   p_kind : ps_kind;
   p_written : bool;       (* package-level variable: assigned / index-assigned / Store()d in a function other than init *)
   p_scope : scope }.
+
+(** Concurrency / timing constructs: everything through which goroutine scheduling, the wall clock or the machine can
+    reach a computation other than by iterating a map.  [k_in_go]: the construct is inside the function started by a `go`
+    statement; [k_in_select]: it is the communication of a select clause (`case ch <- v:` / `case x := <-ch:`). *)
+Inductive conc_kind :=
+| CkGo                                  (* go statement *)
+| CkMakeChan (buffered : bool)          (* make(chan T[, n]) *)
+| CkSend | CkRecv | CkRangeChan | CkClose
+| CkSelect (ncomm : nat) (has_default : bool)
+| CkTimer                               (* time.After / NewTimer / NewTicker / Tick / AfterFunc / Sleep, methods of *time.Timer / *time.Ticker *)
+| CkDeadline                            (* context.WithTimeout / WithDeadline / WithCancel…, Context.Done / Deadline / Err *)
+| CkSync                                (* any function or method of sync / sync/atomic *)
+| CkRuntime.                            (* any query of runtime / runtime/debug *)
+
+Record conc_site := mk_conc {
+  k_pkg : string; k_fn : string; k_kind : conc_kind;
+  k_what : string;        (* callee (`time.NewTimer`, `Mutex.Lock`, `runtime.NumCPU`), normalised channel expression, element type *)
+  k_in_go : bool; k_in_select : bool; k_scope : scope }.
+
+Definition conc_kind_eqb (a b : conc_kind) : bool :=
+  match a, b with
+  | CkGo, CkGo | CkSend, CkSend | CkRecv, CkRecv | CkRangeChan, CkRangeChan | CkClose, CkClose
+  | CkTimer, CkTimer | CkDeadline, CkDeadline | CkSync, CkSync | CkRuntime, CkRuntime => true
+  | CkMakeChan x, CkMakeChan y => Bool.eqb x y
+  | CkSelect n d, CkSelect n' d' => Nat.eqb n n' && Bool.eqb d d'
+  | _, _ => false
+  end.
 
 (** decidable equalities used by the table lookup *)
 Definition syn_eqb (a b : syn) : bool :=
